@@ -23,6 +23,11 @@ pub const TMPLS: &[Tmpl] = &[
     Tmpl { query: "(block (_) @first . (_)? @second) @blk", caps: &[("first", K::Syn, ""), ("second", K::OptSyn, ""), ("blk", K::Syn, "blk")] },
     Tmpl { query: "((identifier) @id (#eq? @id \"x\"))", caps: &[("id", K::Syn, "identifier")] },
     Tmpl { query: "(return_statement (_)+ @vals) @ret", caps: &[("vals", K::ListSyn, ""), ("ret", K::Syn, "ret")] },
+    // nested nodes of the same kind that start at the same position (a.b.c); queries that do not start with `(`
+    Tmpl { query: "(attribute object: (attribute) @inner) @outer", caps: &[("inner", K::Syn, "attr"), ("outer", K::Syn, "attr")] },
+    Tmpl { query: "(call function: (call) @icall) @ocall", caps: &[("icall", K::Syn, "call"), ("ocall", K::Syn, "call")] },
+    Tmpl { query: "\"pass\" @kw", caps: &[("kw", K::Syn, "")] },
+    Tmpl { query: "_ @any", caps: &[("any", K::Syn, "")] },
 ];
 
 pub const SCAN_REGEXES: &[&str] = &["([a-z]+)", "([0-9])", "(_|-)", "s([0-9]?)", "(a|e|i|o|u)+", "\\\\(", "([a-z])([a-z])", "[^a-z]", "f(o)?o", "x$", "^d", "^[0-9]", "^[a-z]", "\\\\b[a-z]", "[0-9]$", "^(_|-)", " ", "(a)?(b)", "(?:([a-z]):)?([a-z])=([a-z]);", "(x)|(y)"];
@@ -136,7 +141,9 @@ impl<'a> Gen<'a> {
                 _ => { let v = self.fresh("c"); let l = self.expr(K::ListSyn, d, true); self.vars.push(vec![Var { name: v.clone(), kind: K::Syn, mutable: false, local: true }]); let e = self.expr(K::Int, d, local); self.vars.pop(); format!("[ {} for {} in {} ]", e, v, l) }
             },
             // set literals and set comprehensions: duplicates collapse, elements are ordered by value (mixed types rarely)
-            K::SetVal => match self.rng.below(if depth > 2 { 2 } else { 4 }) {
+            K::SetVal => match self.rng.below(if depth > 2 { 2 } else { 6 }) {
+                4 => { let v = self.fresh("c"); let l = self.expr(K::ListSyn, d, true); format!("{{ {} for {} in {} }}", v, v, l) }
+                5 => { let cs = self.caps_of(K::Syn); if cs.len() >= 2 { format!("{{ x_ for x_ in [{}] }}", cs.iter().map(|c| format!("@{}", c)).collect::<Vec<_>>().join(", ")) } else { "{}".to_string() } }
                 0 => { let n = self.rng.below(4); format!("{{{}}}", (0..n).map(|_| self.expr(K::Int, d + 1, local)).collect::<Vec<_>>().join(", ")) }
                 1 => if self.rng.chance(30) { "{1, \"a\", #true, #null, 1}".to_string() } else { format!("{{{}, {}}}", self.expr(K::Str, d + 1, local), self.expr(K::Str, d + 1, local)) },
                 2 => { let v = self.fresh("c"); let l = self.expr(K::ListInt, d, true); self.vars.push(vec![Var { name: v.clone(), kind: K::Int, mutable: false, local: true }]); let ek = if self.rng.chance(50) { K::Int } else { K::Bool }; let e = self.expr(ek, d, local); self.vars.pop(); format!("{{ {} for {} in {} }}", e, v, l) }
@@ -316,7 +323,7 @@ fn py_expr(rng: &mut Rng, depth: usize) -> String {
         1 => format!("{}", rng.below(100)),
         2 => format!("\"{}\"", rng.pick(&["s", "a b", "日本", "x_y", ""])),
         3 => format!("{}({})", rng.pick(&["f", "g", "foo"]), (0..rng.below(3)).map(|_| py_expr(rng, depth + 1)).collect::<Vec<_>>().join(", ")),
-        4 => format!("{}.{}", rng.pick(IDENTS), rng.pick(&["a", "b"])),
+        4 => match rng.below(4) { 0 => format!("{}.{}.{}", rng.pick(IDENTS), rng.pick(&["a", "b"]), rng.pick(&["c", "a"])), 1 => format!("{}()()", rng.pick(&["f", "g"])), 2 => format!("{}[0][1]", rng.pick(IDENTS)), _ => format!("{}.{}", rng.pick(IDENTS), rng.pick(&["a", "b"])) },
         5 => format!("{} + {}", py_expr(rng, depth + 1), py_expr(rng, depth + 1)),
         _ => format!("[{}]", (0..rng.below(3)).map(|_| py_expr(rng, depth + 1)).collect::<Vec<_>>().join(", ")),
     }
@@ -381,6 +388,10 @@ pub const RUNTIME_FAULTS: &[(&str, u32)] = &[
     ("if (eq 1 \"x\") {\n  node zz6\n}", 27),
     ("scan (format \"{}\") {\n  \"x\" {\n    node zz6\n  }\n}", 14),
     ("for zz7 in [1, 2] {\n  if (is-null (nosuchfn)) {\n  }\n}", 20),
+    // every condition of an arm is evaluated, also behind a false one
+    ("if #false, (not 3) {\n  node zz6\n}", 10),
+    ("if (is-null 1), (eq 1 \"x\") {\n  node zz6\n} else {\n  node zz5\n}", 27),
+    ("if #false {\n  node zz6\n} elif #false, (nosuchfn 1) {\n  node zz5\n}", 20),
     ("print zz_undefined_at_runtime_is_static", 0),
 ];
 /// Insert one runtime fault at a random statement position (any depth) of a random stanza.
